@@ -7,7 +7,7 @@ TECHNIQUE = ("Coq proof (algebraic for GenerateShards with the uint32 wrap expli
              "status resource, computeNewAssignments and the client shard map")
 LEVEL_TEXT = ("Theorems in Coq: GenerateShards partitions [0,2^32) with consecutive ids for every base id and every "
               "shard count 1..65536 (bound sharp, 65537 refuted); on a partition every hash code routes to exactly one shard. "
-              "Cluster status, for EVERY sequence of config changes (any namespaces / shard counts 1..65536 / server lists, any "
+              "Cluster status, for EVERY sequence of config changes and coordinator restarts (any namespaces / shard counts 1..65536 / server lists, any "
               "ensemble supplier, failing or not), shard-deletion completions and controller metadata updates: shard ids are "
               "unique over the whole status, below ShardIdGenerator, the generator never decreases and an id that disappeared never "
               "comes back; a live id keeps its namespace and range; every stored namespace is published as nothing (being deleted) "
@@ -25,8 +25,12 @@ LEVEL_NOTE = ("Partial: proof about a hand-written model, tied to the code by di
               "Trusted: Coq kernel, extraction (ExtrOcamlBasic), the Go harness and its canonicalisation. "
               "Modelled, not verified: xxh3 (hash codes are inputs), gRPC delivery of assignments, the real ensemble selector "
               "(C19; here any function), the goroutine interleaving inside the coordinator (steps are the critical sections "
-              "under the coordinator / status-resource locks). ConfigChanged / NewCoordinator themselves are not driven (they need "
-              "node and shard controllers with live RPC); the harness composes the same calls they make: ApplyClusterChanges, "
+              "under the coordinator / status-resource locks). Coordinator restarts are driven through the real NewCoordinator "
+              "(memory metadata provider holding the status of the history so far, stub rpc.Provider: nodes healthy, replication "
+              "RPCs block) at arbitrary points of a history, OpRestart in the model = ApplyClusterChanges on the STORED status; "
+              "that kind compares ids, ranges, Deleting marks, rf, ShardIdGenerator and ServerIdx (the real selector and the "
+              "shard controllers run, so ensembles / status / term / leader are left out). ConfigChanged itself is not driven "
+              "(it needs live node and shard controllers); the harness composes the same calls it makes: ApplyClusterChanges, "
               "StatusResource.Update / DeleteShardMetadata / UpdateShardMetadata on the real resource, computeNewAssignments on a bare "
               "coordinator. Outside the proved domain, configuration is never validated: shard count 0 and an empty server list "
               "with a succeeding supplier make ApplyClusterChanges panic (division by zero, modelled as Panic, nothing stored); "
@@ -45,7 +49,9 @@ RULE = ("gen: shard counts from {0..300, 2^k, 2^k±1, 65535..65537, random}; non
         "GenerateShards, from the status histories, and from arbitrary cut points moved by ±1, distinct by content; "
         "status: config histories (add/remove/re-add namespaces, server lists incl. empty, shard counts from the interesting "
         "set incl. 0) with scripted supplier (fail / round-robin / explicit), deletion completions, metadata writes; "
-        "non-trivial = more than one step, distinct by content")
+        "non-trivial = more than one step, distinct by content; coord: histories of config changes, deletion completions and "
+        "restarts of the real coordinator (incl. restarts with every namespace removed and fully deleted), generated op by "
+        "op against the running implementation, distinct by content")
 LEGS = [
     {"name": "shard", "harness": "shard", "model": "shard", "n_quick": 120, "n_thorough": 4000,
      "corpus": "corpus/shard", "timeout": 600, "timeout_thorough": 3000},
